@@ -660,23 +660,26 @@ class Engine(object):
             self.event("mass_matrix", "skipped")
             return
         first = sp.mass_vector is None
-        gvec = self.global_vector() if first else sp.mass_vector
+        # a fresh process calling mass_matrix() now assembles with the globals in force now
+        gvec = self.global_vector()
         res = self._call(lambda: sp.obj.mass_matrix())
         if res is PEER_FAULT:
             return
         model = self.model_mass(sp, sp, gvec)
         label = "mass_matrix/" + sp.spec["kind"]
         flags = {"assembler": "sparse", "family": "sparse", "opname": "mass_matrix", "dom_kind": sp.spec["kind"]}
+        if not first:
+            self.out.probe("mass_matrix_called_again")
+            if sp.mass_vector.get("quadrature.regular") != gvec.get("quadrature.regular"):
+                self.out.probe("mass_matrix_called_again_after_order_change")
+                flags["mass_matrix_order_changed"] = True
+                flags["mass_orders"] = sorted([sp.mass_vector.get("quadrature.regular"), gvec.get("quadrature.regular")])
         if isinstance(res, Failure):
             self.compare("mass_matrix", label, res, model, flags=flags)
             return
-        if first:
-            sp.mass_vector = gvec
-            sp.mass = res
-            self.out.nontrivial = True
-        elif res is not sp.mass:
-            # not demanded by the property (it only names weak_form); recorded, not a violation
-            self.out.probe("mass_matrix_reassembled")
+        sp.mass_vector = gvec
+        sp.mass = res
+        self.out.nontrivial = True
         self.compare("mass_matrix", label, np.asarray(res.to_dense()), model, flags=flags)
 
     def op_create_pot(self, op):
